@@ -69,6 +69,8 @@ class EngineC13(EngineC14):
             name = op["name"] if kind in ("insn", "loaded_insn") else None
             if kind == "loaded_insn":
                 parts = o.get("loaded_parts") or []
+            elif kind == "fresh2":
+                parts = list(op["codes"])
             else:
                 parts = op["parts"] if kind == "insn" else [op["code"]]
             if len(o["parts"]) != len(parts):
